@@ -566,7 +566,8 @@ class NDNApp:
         try:
             data_name, content, pkt_context = await aio.wait_for(future, timeout=lifetime/1000.0)
         except TimeoutError:
-            if node.timeout(future):
+            # The node may have been removed (and even re-created by a later Interest) by _on_data already
+            if node.timeout(future) and self._pit.get(node_name) is node:
                 del self._pit[node_name]
             raise types.InterestTimeout()
         except aio.CancelledError:
